@@ -255,8 +255,8 @@ Qed.
 
 (* the gater's arithmetic: a duty more than [allowed] epochs ahead of the current epoch is refused *)
 Lemma gate_window : forall g, gate_ok g = true ->
-  g_type_valid g = true /\ (g_duty_slot g / g_spe g <= g_now_slot g / g_spe g + g_allowed g)%nat.
-Proof. intros g H. unfold gate_ok in H. apply andb_true_iff in H as [H1 H2]. apply Nat.leb_le in H2. auto. Qed.
+  g_type_valid g = true /\ (g_duty_slot g / g_spe g <= g_now_slot g / g_spe g + g_allowed g)%N.
+Proof. intros g H. unfold gate_ok in H. apply andb_true_iff in H as [H1 H2]. apply N.leb_le in H2. auto. Qed.
 
 (* ---------- non-vacuity ---------- *)
 Definition ex_lock : lockt := [(0%N, [1%Z; 2%Z; 3%Z; 4%Z]); (1%N, [1%Z; 2%Z; 3%Z; 4%Z])].
